@@ -503,6 +503,8 @@ def arrival_histories(ctx):
             for i in range(1, 6):
                 p.stdin.write(f"a=k{i},x={i}\n".encode()); p.stdin.flush()
                 r, _, _ = select.select([p.stdout], [], [], 8.0)
+                if not r:   # confirm with a long wait before calling it a violation (loaded machine)
+                    r, _, _ = select.select([p.stdout], [], [], 90.0)
                 if not r:
                     ok = False
                     ctx.violation({"class": "tail-f-contract:" + " ".join(verbs), "what": "no output for record %d while the input pipe is still open" % i,
